@@ -140,6 +140,8 @@ def run_driver(binp, lowered, scratch, timeout, env=None):
             break
         if n > 0 and results[nxt - 1].get("hang"):
             start = nxt         # the watchdog reported the hang itself
+        elif rc == -9:
+            break               # OUR wall-clock limit killed the driver (loaded machine): nobody's fault, stop here
         else:
             results[nxt] = {"id": nxt, "ok": False, "crash": True, "rc": rc, "panic": None,
                             "stderr": (err or "")[-800:]}
@@ -1341,7 +1343,19 @@ def search_family(binp, scratch, scs, deadline, stop_at_first=True):
                 continue
             checked += 1
             if m is not None:
-                fails.append((sc, m, r))
+                # confirm in isolation, with generous time limits: a failure that does not repeat (machine load, a
+                # killed batch) is machinery noise, never a finding
+                try:
+                    r2 = run_driver(binp, [low], scratch, timeout=300,
+                                    env=dict(sc.get("env") or {}, REPLAY_SCENARIO_TIMEOUT_MS="180000"))[0]
+                    m2 = check(sc, low, r2)
+                except Machinery as e:
+                    m2 = "skip"
+                    mach.append("confirm %s: %s" % (sc.get("kind"), e))
+                if m2 is None or m2 == "skip":
+                    mach.append("unconfirmed failure dropped (%s: %s)" % (sc.get("kind"), str(m.get("field"))[:80]))
+                    continue
+                fails.append((sc, m2, r2))
                 if stop_at_first:
                     return fails, checked, skipped, mach
     return fails, checked, skipped, mach
